@@ -32,6 +32,8 @@ Definition content_of (ct : content) (root : N) : deco := match alookup root ct 
 
 Record rslice := mkRS { rs_root : N; rs_parent : option blockid; rs_txs_ok : bool }.
 Definition blockhash := list N.       (* slice roots in slice order *)
+Fixpoint listN_eqb (a b : list N) : bool :=
+  match a, b with [], [] => true | x :: a', y :: b' => (x =? y) && listN_eqb a' b' | _, _ => false end.
 Record bdata := mkBD {
   bd_completed : option (blockhash * blockid);            (* hash, parent *)
   bd_shreds : list (N * list (N * bshred));               (* slice -> (shred index -> shred) *)
@@ -227,7 +229,7 @@ Definition sd_empty := mkSD bd_empty [] false false.
 
 Inductive bs_op :=
 | BDissem (s : bshred)
-| BRepair (key : N) (s : bshred)
+| BRepair (key : N) (expected : blockhash) (s : bshred)    (* expected: the slice roots the requested block hash commits to *)
 | BOwnSlice (idx : N) (last : bool) (root : N) (size : N).
 
 Inductive bs_ret := BROk (info : option (blockhash * blockid)) | BRErr (e : add_err) | BRPanic.
@@ -256,9 +258,17 @@ Definition bs_step (chk : bool) (ct : content) (slot : N) (sd : slotdata) (op : 
         | AErr e => let '(sd2, evs) := flag_misbehaviour sd1 in (sd2, BRErr e, evs)
         | APanic => (mkSD d (sd_repaired sd) (sd_misbehaved sd) true, BRPanic, [])
         end
-    | BRepair key s =>
+    | BRepair key expected s =>
       let d0 := aget bd_empty key (sd_repaired sd) in
       let '(d, r) := bd_add_shred chk ct slot d0 s in
+      (* current tree ("fix: discard a repaired block that does not hash to the requested identifier") *)
+      let mismatch := match r with
+                      | AOk (Some (BBlock h _)) => negb (listN_eqb h expected)
+                      | _ => false end in
+      if mismatch then
+        let sd1 := mkSD (sd_dissem sd) (filter (fun kv => negb (fst kv =? key)) (sd_repaired sd)) (sd_misbehaved sd) (sd_panicked sd) in
+        let '(sd2, evs) := flag_misbehaviour sd1 in (sd2, BRErr EInvalidShred, evs)
+      else
       let sd1 := mkSD (sd_dissem sd) (ainsert key d (sd_repaired sd)) (sd_misbehaved sd) (sd_panicked sd) in
       match r with
       | AOk e => (sd1, ret_of_event e, match e with Some x => [x] | None => [] end)
